@@ -138,6 +138,7 @@ type Layout struct {
 	R          *core.Rng
 	PadByte    byte
 	RandomPad  bool
+	MinLen     int // trailing padding up to this length (the library's header search needs 32 bytes)
 }
 
 type block struct {
@@ -241,6 +242,9 @@ func BuildTIFF(root *Dir, L Layout) Built {
 		placed = append(placed, b)
 	}
 	total := pos
+	if total < L.MinLen {
+		total = L.MinLen
+	}
 	out := make([]byte, total)
 	if L.RandomPad {
 		copy(out, r.Bytes(total))
